@@ -10,6 +10,9 @@ import (
 )
 
 func main() {
+	if len(os.Args) > 1 && os.Args[1] == "check" {
+		os.Exit(runCheck(os.Args[2:]))
+	}
 	repo := flag.String("repo", "/repo", "repository root")
 	pkgs := flag.String("pkgs", "", "comma separated package patterns to load")
 	funcs := flag.String("funcs", "", "comma separated pkgpath::key of functions to verify")
